@@ -123,8 +123,8 @@ func suiteCuckoo(c *Ctx) {
 	}
 	// two-digit bucket counts and sizes on both backends (keys and slot numbers that, written next
 	// to each other, can be read in two ways: bucket 1 slot 12 / bucket 11 slot 2)
-	cuckooCase(c, cuckooCfg{n: 12, b: 13, fpl: 3, retries: 50, redis: true})
-	cuckooCase(c, cuckooCfg{n: 12, b: 13, fpl: 3, retries: 50, redis: false})
+	cuckooCase(c, cuckooCfg{n: 12, b: 13, fpl: 3, retries: 500, redis: true})
+	cuckooCase(c, cuckooCfg{n: 12, b: 13, fpl: 3, retries: 500, redis: false})
 	cuckooInvalidFpProbe(c)
 	cuckooHugeBucket(c)
 }
